@@ -73,6 +73,7 @@ fn cfg(tier: Tier) -> ProgCfg {
             damage_content: 4,
             damage_bucket: 4,
             foreign: 1,
+            two_writers: 2,
         },
         wmix: WriteMix { bad_decls: true, meta: true, by_hash: true, rich_matching: true, interfere: true },
         sizes: SizeMix::Boundary,
